@@ -155,7 +155,7 @@ def Column.flexible (c : Column) : Bool := c.ratio.isSome
   column that was handed its flex minimum, a nested renderable) is left narrower than asked; repaired: `table_width = sum(widths)`
   after the re-measure.
 (`Flags.today` — the name dates from before the fixes — is rich 9.10.0 as found; `Flags.repaired` repairs the first three only —
-the state other properties' witnesses were written against; `Flags.allRepaired` repairs all six and is what /repo contains now.) -/
+the state other properties' witnesses were written against; `Flags.allRepaired` repairs every flag, `flexClampZero` included.) -/
 structure Flags where
   leadingRepeat : Bool := true
   minWidthCapsExpand : Bool := true
